@@ -3215,6 +3215,7 @@ def _finalize_scan(block: ScanState, dtype) -> np.ndarray:
 def dask_groupby_scan(array, by, axes: T_Axes, agg: Scan) -> DaskArray:
     from dask.array import map_blocks
     from dask.array.reductions import cumreduction as scan
+    from dask.base import tokenize
 
     from flox.aggregations import scan_binary_op
 
@@ -3231,7 +3232,8 @@ def dask_groupby_scan(array, by, axes: T_Axes, agg: Scan) -> DaskArray:
         array,
         dtype=array.dtype,
         meta=array._meta,
-        name="groupby-scan-preprocess",
+        # the name must identify the inputs: a fixed name makes two graphs share keys
+        name="groupby-scan-preprocess-" + tokenize(by, array),
     )
 
     scan_ = partial(chunk_scan, agg=agg)
